@@ -1009,7 +1009,7 @@ Proof.
       * destruct nb; inversion H; subst; clear H.
         -- apply sub_same; auto. cbn [submitted]. unfold can_send. simp_r. now rewrite EN, F.
         -- apply sub_exact; cbn [submitted]; unfold QInv, pend, can_send; simp_r; rewrite ?EN; auto.
-           cbn [andb]. rewrite map_app, <- app_assoc. reflexivity.
+           cbn [andb txs app]. rewrite (map_app snd). cbn [map snd]. now rewrite <- app_assoc.
       * assert (WQ: waq = []) by (destruct waq; auto; exfalso; specialize (Q ltac:(discriminate)); congruence). subst waq.
         inversion H; subst; clear H. apply sub_exact; cbn [submitted]; unfold QInv, pend, can_send; simp_r; rewrite ?EN, ?F; auto.
         rewrite andb_false_r. cbn [map app]. now rewrite !app_nil_r.
